@@ -89,6 +89,20 @@ fn check_missing_bounds(m: &Model, c: &mut Case) {
         }
         if variables.is_empty() { c.tags.push("missing-bounds-none-identified".into()); }
     }
+    // … and must name EVERY source variable of the offending expression whose derived range is not finite
+    // (`Props.C08.missing_bounds_payload_spec` / `missing_bounds_error_global`: the payload is exactly that set, sorted)
+    if let Err(LinearizationError::MissingFiniteBounds { expression, variables, .. }) = Linearizer::linearize(m.clone()) {
+        let rep = rooc::verif_hooks::linearizer_bounds(m.domain(), m.constraints());
+        let mut occ = vec![];
+        exp_vars(&expression, &mut occ);
+        for v in occ {
+            if let Some((_, lo, hi)) = rep.variables.iter().find(|(n, _, _)| *n == v) {
+                if (!lo.is_finite() || !hi.is_finite()) && !variables.contains(&v) && c.impl_violation.is_none() {
+                    c.impl_violation = Some(format!("MissingFiniteBounds for {} does not name {} whose derived range is [{}, {}] (names: {:?})", expression, v, lo, hi, variables));
+                }
+            }
+        }
+    }
 }
 
 /// coverage boost for the reified logic auxiliaries (`$iff_k`, `$implies_k`, `$xor_k`, `$and_k`, `$or_k`) and the
@@ -353,7 +367,9 @@ pub fn generate(seed: u64, n: usize, thorough: bool, corpus: Option<&str>) -> Ve
     }
     for _ in 0..(n / 10).max(80) {
         let m = display_targeted(&mut r);
-        out.push(crate::props::c01::one(&m, "targeted-error", "c08"));
+        let mut c = crate::props::c01::one(&m, "targeted-error", "c08");
+        check_missing_bounds(&m, &mut c);
+        out.push(c);
         if let Some(d) = display_case(&m) { out.push(d); }
     }
     for _ in 0..(n / 10).max(30) { out.push(logic_aux_case(&mut r)); }
